@@ -36,8 +36,8 @@ func sectionOf(ref optRef, own bool) string {
 	if own {
 		return s
 	}
-	if s != "" {
-		s += "."
+	if s != "" && ref.G.Name != "" {
+		s += "." // (an unnamed group of a command is written under the command's own section)
 	}
 	return s + ref.G.Name
 }
